@@ -10,7 +10,9 @@ search         : public functions of pyamg/graph.py judged by the specification 
                  requested distance, vertex_coloring MIS / JP / LDF, bellman_ford methods x tiebreaking with centres as list /
                  int64 / int32 array, breadth_first_search from every seed (n <= 6), lloyd_cluster (centre list / count,
                  maxiter 1, 2, 3, 5, default, complex weights; nearest-centre labels w.r.t. the centres returned with one sweep
-                 less), pseudo_peripheral_node, connected_components, symmetric_rcm; inputs as CSR, CSC, dense, COO and CSR
+                 less, returned centres most interior), bellman_ford / lloyd_cluster again on the weights scaled by 2^-40 ..
+                 2^-200, 1e-12 .. 1e-18 and up to 2^200 (float64 / float32; balanced method: multiples of h > 2e-14 only),
+                 pseudo_peripheral_node, connected_components, symmetric_rcm; inputs as CSR, CSC, dense, COO and CSR
                  with unsorted rows; self loops on all / some vertices, exhaustively every self-loop subset on <= 3 (4) vertices.
 extension E20  : `bellman_ford_balanced` (kernel on the wrapper's and on the Lloyd loop's initial arrays, second call on
                  its own final state, tiebreaking on/off, dyadic weights with ties, some zero weights) and the public
@@ -35,17 +37,32 @@ META = {
             '(paths, stars, cycles, cliques, isolated pairs, grids, two components, Erdos-Renyi; some with self loops, some '
             'nonsymmetric for the kernel correspondence) up to n = 40; weights dyadic with ties; a case is non-trivial when '
             'the graph has an edge; distinct = distinct (routine, graph, input format, parameters); every graph on <= 3 (quick) / '
-            '<= 4 (thorough) vertices with every non-empty self-loop subset; public functions: full option grid per graph',
+            '<= 4 (thorough) vertices with every non-empty self-loop subset; public functions: full option grid per graph; '
+            'every weighted routine (kernel and public bellman_ford, lloyd_cluster) additionally on the same weights in other '
+            'units of length: scalings 2^-40 .. 2^-70, 2^-200, 2^20 .. 2^60, 2^200 and 1e-12 .. 1e-18, 1e12 cut to 20 mantissa '
+            'bits (float sums of the weights are exact: exact Fraction oracle and exact model equality), true decimal scalings '
+            '1e-12 .. 1e-18, 1e-3, 1e12 (float sums are rounded: every comparison of path lengths up to the relative tolerance '
+            '1e-9, predecessor labels not compared), binary32 weights on the dyadic scalings that fit; lloyd_cluster: nearest-'
+            'centre labels and "the returned centre is a most interior node of its cluster" (Fraction oracle)',
     'search_only': ['balanced Bellman-Ford: termination (the kernel gives up after n*n sweeps with a C++ exception) is not a theorem; '
                     'the check never met it on the unchanged tree; RCM: only "permutation" is a theorem, bandwidth quality is not judged',
                     'Jones-Plassmann / LDF colourings and distance-k MIS through the public wrappers (random real weights): '
                     'specification checkers; the kernels themselves are compared exactly with Model/ExtGraph.lean on tied '
-                    'integer weights (theorems coloring_jp_total, coloring_ldf_total, mis_k_total)'],
+                    'integer weights (theorems coloring_jp_total, coloring_ldf_total, mis_k_total)',
+                    'lloyd_cluster (nearest-centre labels w.r.t. the previous centres, returned centres most interior) and the '
+                    'decimal-scaled / binary32 Bellman-Ford runs: Fraction oracles only; the Bellman-Ford kernel itself is '
+                    'compared exactly with the model on the exact scalings'],
     'partial': [],
     'assumptions': ['balanced Bellman-Ford theorems (bf_balanced_kernel, bf_balanced_wrapper) assume weights in h*N with '
                     '2*tol < h (tol = 1e-14 is the kernel constant): then the two float tests are exact (theorem '
                     'bf_balanced_tests_exact); the generator draws weights from {0, 0.5, 1, 1.5, 2} (h = 0.5), for which float '
-                    'arithmetic is exact as well; they speak about runs that return (model result `ok`): out-of-bounds accesses '
+                    'arithmetic is exact as well, on every other graph multiplied by a scale from SC_BAL (h = 0.5*scale between '
+                    '2^-45 = 2.84e-14 and 2^199, the smallest dyadic h above 2*tol = 2e-14 included); the public '
+                    "bellman_ford(method='balanced') is judged on such weights only: for positive weights that are NOT of this "
+                    'form (measured on the unchanged tree: every graph scaled to h = 2^-46 = 1.42e-14 or less, e.g. weights '
+                    '1e-15 .. 4e-15) the absolute tolerance makes the balanced kernel ignore improvements of a path by <= 2e-14 '
+                    'and its distances / nearest centres are not the shortest-path ones -- outside the stated assumption, not '
+                    'generated; they speak about runs that return (model result `ok`): out-of-bounds accesses '
                     '(`fault`, only met with zero weights, where the real kernel is then not run) and the kernel\'s "too many '
                     'iterations" exception are outside',
                     'rcm_total assumes a symmetric pattern with column indices < n and a start node < n (int(rand()*n) always is)',
@@ -138,8 +155,19 @@ def dist_from(G, c):
     return shortest(G, [c])
 
 
-def check_bf(G, centers, d, m, p):
+def _eq(a, b, rtol):
+    """a == b for Fractions; with rtol > 0 (weights whose float sums round): equal up to the relative tolerance"""
+    if not rtol:
+        return a == b
+    return abs(a - b) <= rtol * max(abs(a), abs(b))
+
+
+def check_bf(G, centers, d, m, p, rtol=0):
+    """d, m, p are shortest-path distances / nearest-centre indices / predecessors for the weighted graph G (exact, in
+    Fractions).  rtol > 0 is for weights whose float sums are rounded (decimal scalings): every comparison of path lengths
+    is then made up to this relative tolerance and the label of the predecessor is not compared (near ties)."""
     n = G.shape[0]
+    rtol = frac(rtol)
     ref = shortest(G, centers)
     W = {}
     for i in range(n):
@@ -155,23 +183,24 @@ def check_bf(G, centers, d, m, p):
             if m[j] != -1 or p[j] != -1:
                 return f'node {j} unreachable but labelled'
             continue
-        if not np.isfinite(d[j]) or frac(d[j]) != ref[j]:
-            return f'distance of node {j} is {d[j]}, shortest is {ref[j]}'
+        if not np.isfinite(d[j]) or not _eq(frac(d[j]), ref[j], rtol):
+            return f'distance of node {j} is {d[j]}, shortest is {float(ref[j])!r} (= {ref[j]})'
         if not 0 <= m[j] < len(centers):
             return f'node {j}: nearest-centre index {m[j]} out of range'
         c = int(centers[m[j]])
         if c not in per_center:
             per_center[c] = dist_from(G, c)
-        if per_center[c][j] != ref[j]:
-            return f'node {j}: labelled with centre {c} at distance {per_center[c][j]}, but nearest is at {ref[j]}'
+        if per_center[c][j] is None or not _eq(per_center[c][j], ref[j], rtol):
+            return (f'node {j}: labelled with centre {c} at distance {per_center[c][j] if per_center[c][j] is None else float(per_center[c][j])!r}, '
+                    f'but nearest is at {float(ref[j])!r}')
         if j in [int(c) for c in centers] and ref[j] == 0:
             continue
         q = int(p[j])
         if q < 0 or (q, j) not in W:
             return f'node {j}: predecessor {q} is not a neighbour'
-        if ref[q] is None or ref[q] + W[(q, j)] != ref[j]:
+        if ref[q] is None or not _eq(ref[q] + W[(q, j)], ref[j], rtol):
             return f'node {j}: predecessor {q} is not on a shortest path'
-        if m[q] != m[j]:
+        if m[q] != m[j] and not rtol:
             return (f'node {j} is labelled with centre index {int(m[j])} but its predecessor {q} with {int(m[q])}: the '
                     f'predecessor chain does not lead to the nearest centre the node is assigned to')
     return None
@@ -262,6 +291,31 @@ def _g_public(G, centers, method, tb):
 _GUARDED = {'kernel': _g_kernel, 'public': _g_public}
 
 
+# ---------------------------------------------------------------- weight scalings
+
+TOL = 1e-14          # bellman_ford_balanced's `const double tol` (an ABSOLUTE tolerance)
+
+
+def _trunc20(x):
+    """x cut to 20 mantissa bits: small multiples of it and their sums (any order) are exact in binary64"""
+    import math
+    mant, e = math.frexp(x)
+    return math.ldexp(math.floor(mant * 2**20), e - 20)
+
+
+# scalings under which float arithmetic on small multiples of the scale stays exact (exact oracle, exact model comparison)
+SC_EXACT = (2.0**-45, _trunc20(1e-15), 2.0**20, 2.0**-50, _trunc20(1e-14), 2.0**-40, 2.0**-60, _trunc20(1e-16), 2.0**60,
+            2.0**-70, _trunc20(1e-13), 2.0**-200, _trunc20(1e-18), 2.0**40, _trunc20(1e-12), 2.0**200, _trunc20(1e12))
+# ... that fit binary32 as well (the weights are passed as float32 there)
+SC_EXACT32 = (2.0**-50, 2.0**-70, 1.0, 2.0**-45, 2.0**40, 2.0**-60)
+# decimal scalings: sums of the weights are rounded, judged with the relative tolerance RTOL_DEC
+SC_DEC = (1e-15, 1e-12, 1e-14, 1e-3, 1e-16, 1e-13, 1e-18, 1e12, 1e-17)
+RTOL_DEC = 1e-9
+# the balanced kernel: weights must be multiples of some h with 2*tol < h (E20 theorems; below that the kernel's absolute
+# tolerance ignores improvements of a path).  The base weights are multiples of 0.5, so a scale s needs 0.5*s > 2*tol.
+SC_BAL = tuple(sc for sc in (2.0**-44, 2.0**-43, 2.0**-30) + SC_EXACT if 0.5 * sc > 2 * TOL)
+
+
 # ---------------------------------------------------------------- graph streams
 
 def graph_stream(ctx, nmax_exh, n_rand, nmax_rand):
@@ -332,10 +386,11 @@ def _as_fmt(G, fmt, rng):
     return G
 
 
-def check_nearest(G, centers, cl):
+def check_nearest(G, centers, cl, rtol=0):
     """cluster ids `cl` are nearest-centre labels for the centre list `centers` (ties: any nearest centre), -1 iff no
     centre is reachable"""
     n = G.shape[0]
+    rtol = frac(rtol)
     ref = shortest(G, centers)
     per = {}
     for j in range(n):
@@ -348,8 +403,31 @@ def check_nearest(G, centers, cl):
         c = int(centers[cl[j]])
         if c not in per:
             per[c] = dist_from(G, c)
-        if per[c][j] != ref[j]:
-            return f'node {j} is in the cluster of centre {c} at distance {per[c][j]}, the nearest centre is at {ref[j]}'
+        if per[c][j] is None or not _eq(per[c][j], ref[j], rtol):
+            return (f'node {j} is in the cluster of centre {c} at distance {per[c][j] if per[c][j] is None else float(per[c][j])!r}, '
+                    f'the nearest centre is at {float(ref[j])!r}')
+    return None
+
+
+def check_interior(G, cl, cs, rtol=0):
+    """the returned centre of every cluster is a most interior node of it: its distance to the nearest boundary node (a
+    node with a neighbour in another cluster) is the largest one in the cluster (what most_interior_nodes promises;
+    clusters without a boundary node keep any centre)"""
+    n = G.shape[0]
+    rtol = frac(rtol)
+    bnd = [i for i in range(n)
+           if any(cl[int(j)] != cl[i] for j in G.indices[G.indptr[i]:G.indptr[i + 1]])]
+    db = shortest(G, bnd)
+    for a, c in enumerate(cs):
+        mem = [i for i in range(n) if cl[i] == a]
+        if any(db[i] is None for i in mem):
+            if db[c] is not None:
+                return f'cluster {a}: node at infinite distance from the boundary exists, centre {c} is at {float(db[c])!r}'
+            continue
+        far = max(db[i] for i in mem)
+        if not (db[c] == far or (rtol and _eq(db[c], far, rtol))):
+            return (f'centre {c} of cluster {a} is at distance {float(db[c])!r} from the cluster boundary, node '
+                    f'{max(mem, key=lambda i: db[i])} is at {float(far)!r}: not a most interior node')
     return None
 
 
@@ -359,6 +437,7 @@ def part_a(ctx, graphs, with_variants=True):
     from pyamg import amg_core
     rng = ctx.np_rng
     items = []
+    bf_runs = {}
     for t, (M, kind) in enumerate(graphs):
         M = np.array(M)
         n = M.shape[0]
@@ -412,6 +491,24 @@ def part_a(ctx, graphs, with_variants=True):
         amg_core.bellman_ford(n, ap, aj, Wt.data, centers, d, m, p)
         dd = ','.join('inf' if not np.isfinite(v) else enc_rat(v) for v in d)
         add(line, dd + ';' + enc_ints(m) + ';' + enc_ints(p) + ';true', 'bellman_ford')
+        bf_runs[line] = (Wt, centers, d, m, p)
+        # ... and on the same weights in another unit of length (tiny / huge scalings under which float sums stay exact,
+        # so the model on rationals must still be met exactly); other centres
+        sc = SC_EXACT[t % len(SC_EXACT)]
+        Ws = G.copy()
+        Ws.data = Wt.data * sc
+        k = int(rng.integers(1, min(n, 3) + 1))
+        centers = rng.choice(n, size=k, replace=False).astype(np.int32)
+        d = np.full(n, np.inf)
+        m = np.full(n, -1, dtype=np.int32)
+        p = np.full(n, -1, dtype=np.int32)
+        d[centers] = 0
+        m[centers] = np.arange(k)
+        line = f'bf {n} {enc_ints(ap)} {enc_ints(aj)} {enc_rats(Ws.data)} {_enc_d(d)} {enc_ints(m)} {enc_ints(p)}'
+        amg_core.bellman_ford(n, ap, aj, Ws.data, centers, d, m, p)
+        add(line, _enc_d(d) + ';' + enc_ints(m) + ';' + enc_ints(p) + ';true', 'bellman_ford(scaled weights)')
+        ctx.feat(f'kernel_bf_scale:{sc:.3g}')
+        bf_runs[line] = (Ws, centers, d, m, p)
         # kernels that take weights, called directly with TIED weights (the wrappers only pass random reals)
         Ms = np.array(M)
         if (Ms == Ms.T).all():
@@ -456,6 +553,16 @@ def part_a(ctx, graphs, with_variants=True):
         ctx.feat('graph:' + kind)
         if o != out:
             ctx.corr('kernel ' + what, {'line': line}, o, out)
+            if line in bf_runs:
+                # the property itself on the kernel's output (the pattern may be nonsymmetric here: directed shortest paths)
+                Wg, centers, d, m, p = bf_runs[line]
+                e = check_bf(Wg, centers, d, m, p)
+                if e:
+                    ctx.violation(f'kernel bellman_ford (centers={centers.tolist()}, weights between '
+                                  f'{float(Wg.data.min()) if Wg.nnz else 0.0!r} and {float(Wg.data.max()) if Wg.nnz else 0.0!r}): {e}',
+                                  {'routine': 'bf_kernel', 'n': int(Wg.shape[0]), 'indptr': Wg.indptr.tolist(),
+                                   'indices': Wg.indices.tolist(), 'data': Wg.data.tolist(), 'centers': centers.tolist(),
+                                   'M': (Wg.toarray() != 0).astype(int).tolist()})
 
 
 # ---------------------------------------------------------------- part B: public API judged by the spec
@@ -563,13 +670,62 @@ def part_b(ctx, graphs):
             e = check_bf(Gwc, centers, d, m, p) if len(d) == len(m) == len(p) == n else 'results of wrong length'
             if e:
                 viol(f'bellman_ford(centers={centers.tolist()}, {kw}): {e}', extra)
+        # --- the same weights scaled down / up (shortest paths do not depend on the unit of length): tiny and huge dyadic
+        #     scalings and 20-bit decimal ones (float sums exact: exact oracle), true decimal ones (rounded sums: relative
+        #     tolerance), binary32 weights; the balanced method only on scalings its absolute tolerance admits (SC_BAL)
+        if kind == 'replay':
+            plan = ([('standard', sc, 'exact', np.float64) for sc in SC_EXACT] + [('standard', sc, 'dec', np.float64) for sc in SC_DEC]
+                    + [('standard', sc, 'exact', np.float32) for sc in SC_EXACT32] + [('balanced', sc, 'exact', np.float64) for sc in SC_BAL])
+        else:
+            plan = [('standard', SC_EXACT[t % len(SC_EXACT)], 'exact', np.float64),
+                    ('standard', SC_DEC[t % len(SC_DEC)], 'dec', np.float64),
+                    ('balanced', SC_BAL[t % len(SC_BAL)], 'exact', np.float64)]
+            if t % 3 == 0:
+                plan.append(('standard', SC_EXACT32[(t // 3) % len(SC_EXACT32)], 'exact', np.float32))
+        scaled = {}
+        for pi, (method, sc, how, dt) in enumerate(plan):
+            Gsc = _csr(Wm * sc)
+            if dt is np.float32:
+                Gsc = Gsc.astype(np.float32)
+            Gsf = _as_fmt(Gsc, fmt, rng)
+            Gsc = Gsc.astype(np.float64)
+            scaled[('bal' if method == 'balanced' else how, pi)] = (sc, Gsc, Gsf)
+            tb = bool((t + pi) % 2)
+            kw = {'method': method, 'tiebreaking': tb} if method == 'balanced' or t % 2 else {}
+            rt = RTOL_DEC if how == 'dec' else 0
+            reg('bellman_ford_scaled', k=k, scale=sc, dtype=dt.__name__, **kw)
+            ctx.feat(f'bf_scale:{method}:{dt.__name__}:{sc:.3g}({how})')
+            extra = {'routine': 'bellman_ford', 'W': (Wm * sc).tolist(), 'scale': sc, 'dtype': dt.__name__,
+                     'centers': centers.tolist(), **kw}
+            if method == 'balanced':
+                status, res = guard.call('public', Gsf, carg, method, tb)
+                if status != 'ok':
+                    viol(f'bellman_ford(centers={centers.tolist()}, {kw}) on positive weights (multiples of {0.5 * sc!r}) did '
+                         f'not return: {status} {res}', extra)
+                    continue
+                d, m, p = res
+            else:
+                d, m, p = PG.bellman_ford(Gsf, carg, **kw)
+            e = check_bf(Gsc, centers, d, m, p, rtol=rt) if len(d) == len(m) == len(p) == n else 'results of wrong length'
+            if e:
+                viol(f'bellman_ford(centers={centers.tolist()}, {kw}) with {dt.__name__} weights that are multiples of '
+                     f'{0.5 * sc!r}: {e}', extra)
         # --- Lloyd clustering: the cluster ids are nearest-centre labels for the centres the last sweep started from,
-        #     i.e. the centres returned with one sweep less; the returned centre of a cluster lies in that cluster
-        for mi in ((1, 2, 5) if t % 2 else (1, 3, None)):
+        #     i.e. the centres returned with one sweep less; the returned centre of a cluster lies in that cluster and is a
+        #     most interior node of it; on the weights as drawn and (4th run; all scalings on replay) on scaled weights
+        lplan = [(mi, None) for mi in ((1, 2, 5) if t % 2 else (1, 3, None))]
+        cands = [key for key in sorted(scaled) if key[0] != 'bal']
+        lplan += [((1, 2, 3, None)[(t // 2) % 4], key) for key in (cands if kind == 'replay' else [cands[(t // 3) % len(cands)]])]
+        for mi, skey in lplan:
             by_count = (t + (mi or 0)) % 3 == 0                   # `centers` = number of clusters (drawn by the library)
             Gl, lkind = Gw, 'real'
-            if (t + (mi or 0)) % 5 == 0 and fmt in ('csr', 'csc'):
-                Gl, lkind = Gw.astype(complex), 'complex'          # complex weights: abs(G) is the graph
+            Glc, lrt, lsc = Gwc, 0, 1.0
+            if skey is not None:
+                lsc, Glc, Gl = scaled[skey]
+                lrt = RTOL_DEC if skey[0] == 'dec' else 0
+                lkind = f'real*{lsc:.3g}' + ('' if Gl.dtype == np.float64 else ':' + str(Gl.dtype))
+            if (t + (mi or 0)) % 5 == 0 and fmt in ('csr', 'csc') and Gl.dtype == np.float64:
+                Gl, lkind = Gl.astype(complex), lkind.replace('real', 'complex')   # complex weights: abs(G) is the graph
                 Gl.data = Gl.data * (1j, -1.0, 0.6 + 0.8j, 1.0)[t % 4]
             sd = int(rng.integers(2**31))
 
@@ -579,7 +735,7 @@ def part_b(ctx, graphs):
                 return PG.lloyd_cluster(Gl, c0) if maxiter is None else PG.lloyd_cluster(Gl, c0, maxiter=maxiter)
             reg('lloyd', k=k, maxiter=mi, by_count=by_count, weights=lkind)
             ctx.feat(f'lloyd:maxiter={mi}:{"count" if by_count else "list"}:{lkind}')
-            extra = {'routine': 'lloyd', 'W': Wm.tolist(), 'centers': k if by_count else centers.tolist(), 'maxiter': mi,
+            extra = {'routine': 'lloyd', 'W': (Wm * lsc).tolist(), 'centers': k if by_count else centers.tolist(), 'maxiter': mi,
                      'np_seed': sd, 'weights': lkind}
             try:
                 cl, cs = lloyd(mi)
@@ -593,9 +749,10 @@ def part_b(ctx, graphs):
                 e = f'{k} clusters requested, returned centres {cs}, {len(cl)} labels'
             elif not by_count and mi == 1 and sorted(int(v) for v in cprev) != sorted(centers.tolist()):
                 e = f'maxiter=0 returns the centres {list(map(int, cprev))}, given were {centers.tolist()}'
-            e = e or check_nearest(Gwc, [int(v) for v in cprev], cl)
+            e = e or check_nearest(Glc, [int(v) for v in cprev], cl, rtol=lrt)
             if not e and any(cl[cs[a]] != a for a in range(k)):
                 e = f'returned centres {cs} do not lie in their own clusters'
+            e = e or check_interior(Glc, cl, cs, rtol=lrt)
             if e:
                 viol(f'lloyd_cluster(centers={extra["centers"]}, maxiter={mi}, {lkind} weights): {e}; clusters '
                      f'{list(map(int, cl))}, centres of the last sweep {list(map(int, cprev))}', extra)
@@ -663,7 +820,7 @@ def part_b(ctx, graphs):
 
 # ---------------------------------------------------------------- part C (E20): balanced Bellman-Ford and RCM vs Lean models
 
-TOL = 1e-14          # the kernel's `const double tol`
+# TOL (the kernel's `const double tol`) and the admissible scalings SC_BAL are defined above (weight scalings)
 
 
 def _enc_d(d):
@@ -714,6 +871,10 @@ def part_c_bal(ctx, graphs):
         pat = (M != 0)
         wkind = 'zero' if t % 6 == 5 else 'pos'
         vals = [0.5, 1.0, 1.0, 2.0, 1.5] if wkind == 'pos' else [0.0, 0.0, 1.0, 0.5]
+        # every other graph in another unit of length: multiples of h = 0.5*scale with 2*tol < h (SC_BAL), float sums exact
+        bsc = SC_BAL[(t // 2) % len(SC_BAL)] if t % 2 else 1.0
+        vals = [v * bsc for v in vals]
+        ctx.feat(f'bal_scale:{bsc:.3g}')
         if sym:
             Wm = np.triu(pat, 0) * rng.choice(vals, size=(n, n))
             Wm = np.triu(Wm, 1) + np.triu(Wm, 0).T
@@ -948,6 +1109,18 @@ def replay(ctx, data):
         print('replaying bellman_ford_balanced:', e or 'specification holds')
         if e:
             ctx.violation(f'bellman_ford_balanced: {e}', case)
+        return
+    if case.get('routine') == 'bf_kernel':
+        from pyamg import amg_core
+        n = int(case['n'])
+        G = gen.csr_from_arrays(n, case['indptr'], case['indices'], np.array(case['data'], dtype=float))
+        centers = np.array(case['centers'], dtype=np.int32)
+        d, m, p, _, _ = _bal_state(n, centers, 'wrapper')
+        amg_core.bellman_ford(n, G.indptr, G.indices, G.data, centers, d, m, p)
+        e = check_bf(G, centers, d, m, p)
+        print('replaying the kernel bellman_ford:', e or 'specification holds')
+        if e:
+            ctx.violation(f'kernel bellman_ford: {e}', case)
         return
     if case.get('routine') == 'rcm_model':
         import pyamg.graph as PG
